@@ -3,7 +3,8 @@ import json, os
 from collections import defaultdict
 from kernel import *
 from sym import SymExec, show, deep_strip
-import grammar_run, grammar_ai
+import grammar_run
+import grammar_ai, grammar_ai
 from gram import *
 import inventory
 
@@ -157,6 +158,55 @@ def run(prog, R):
              f"{k_} used to be consumed under a marker that was {was} and is now consumed under {now}: the token became a child of a different node (e.g. `else` inside the nested if), so the typed accessors of both nodes see the wrong constituents")
     R.ob("C05.4-token-parent", "all-pairs", not moved, "", f"{ntp} (grammar function, token) pairs compared with the frozen table")
     R.floor("token-parent pairs", ntp, 150)
+    # ---- C05.4 a keyword is a child of the node kind whose typed struct has the accessor for it: from the interpreter,
+    # per completed node kind the token kinds consumed directly under its marker on the same path; from the typed AST,
+    # per keyword the structs with a `support::token(.., KW)` accessor and each struct's kind (can_cast).  A keyword
+    # with accessors that is consumed directly under a node kind of a struct without one (`negctrl` under CTRL_MODIFIER)
+    # makes the typed view report the wrong construct.
+    from kernel import origins as _orig
+    acc, kind_of = {}, {}
+    for b_ in prog.by_crate["oq3_syntax"]:
+        if "ast::generated::nodes::" in b_.npath and b_.npath.endswith("AstNode>::can_cast"):
+            S_ = b_.npath.split("nodes::")[1].split(" as")[0]
+            for bi_, t_ in b_.calls():
+                if (b_.callee_of(t_) or t_.get("callee", "")).endswith("::eq"):
+                    ks_ = {og[2] for og in _orig(prog, b_, t_["args"][1], max_depth=4) if og[0] == "agg"}
+                    if len(ks_) == 1:
+                        kind_of[ks_.pop()] = S_
+        if "ast::generated::nodes::" in b_.npath or "ast::node_ext" in b_.npath:
+            for bi_, t_ in b_.calls():
+                if (b_.callee_of(t_) or "").endswith("support::token"):
+                    for og in _orig(prog, b_, t_["args"][1], max_depth=3):
+                        if og[0] == "agg" and og[2].endswith("_KW"):
+                            acc.setdefault(og[2], set()).add(b_.npath.split("::")[-2])
+    enum_alts = [{(f.get("ty", "") or "").split("::")[-1] for v_ in a_["variants"] for f in v_.get("fields", [])} for k_, a_ in prog.adts.items() if "ast::generated::nodes::" in k_ and len(a_["variants"]) > 1]
+    R.floor("typed AST enums", len(enum_alts), 5)
+    R.floor("keywords with a typed token accessor", len(acc), 35)
+    R.floor("node kinds with a typed struct", len(kind_of), 70)
+    npairs, badkw = 0, []
+    for km_, tm_ in sorted(G.node_tokens.items()):
+        if km_ <= 0 or km_ & (km_ - 1):
+            continue            # the completed kind is not a single constant on this path
+        N_ = G.allkinds.get(km_.bit_length() - 1)
+        S_ = kind_of.get(N_)
+        if S_ is None:
+            continue
+        for kb_ in grammar_ai.bits(tm_):
+            K_ = G.allkinds.get(kb_, "")
+            if K_ in acc:
+                npairs += 1
+                # a discrepancy: the keyword has accessors, this struct has none for it, and either this struct
+                # is an alternative of the same enum as one that has (the construct is presented as a different
+                # alternative) or it has keyword accessors of its own (its keyword vocabulary is declared)
+                sib = any(S_ in alts and (acc[K_] & alts) for alts in enum_alts)
+                own = any(S_ in v_ for v_ in acc.values())
+                if S_ not in acc[K_] and (sib or own):
+                    badkw.append((K_, N_, sorted(acc[K_])))
+    for K_, N_, want_ in badkw:
+        R.ob("C05.4-keyword-under-its-node", f"{K_}:{N_}", False, "", f"the grammar can complete a {N_} node whose direct child is the keyword {K_}, but only {want_} have a token accessor for it ({kind_of.get(N_)} has none): the typed view presents this construct as a different one")
+    if not badkw:
+        R.ob("C05.4-keyword-under-its-node", "all-pairs", True, "", f"{npairs} (keyword, node kind) pairs: each keyword with a typed accessor is consumed directly under a node kind whose struct has that accessor")
+    R.floor("keyword/node pairs", npairs, 30)
     # ---- C05.3 PRESENT: constituents that the typed accessors (and the analyser) expect on every diagnostic-free parse:
     # the grammar function of the statement completes a node of that kind on every path (or reports a syntax error)
     import shapes
